@@ -4,7 +4,8 @@ import vlib, mirrorcheck
 META = {
     "level": "model_checking",
     "text": "Mirror.tla models the two view managers (round entrance, lastSentVersion, jump-ahead, outgoing view; per-view sent markers and the nil-voted round) and makes every send to the state machine and to gossip a separate action that is enabled only when the kernel offers a value, so any relative speed of the consumers is an interleaving of RecvSM/RecvGossip with the inputs; TLC explores them and the behaviours are replayed on a real Mirror whose two unbuffered output channels are read exactly when the behaviour says. On the real values received the harness checks per (height, round) strictly increasing versions, that proposals and signer sets only grow, that a nil-committed round's final precommits reach gossip, and - after inputs stop and both channels are drained - that each consumer's last received view has the content of the mirror's current view of every round it is entitled to. Generation: simulation plus an exhaustive state cover of the focused rounds world (a height decided in round 0 or in round 1 after a nil round, late votes, state machine entrances at every position, both consumers reading at any time); after a divergence the free run still reaches the quiescence predicates; the repository's own tests run under the invariant monitor (views only grow).",
-    "note": "Sequential inputs (one Handle* call at a time); concurrency among Handle* callers is covered by the version-conflict model only at design level. Liveness is checked in its finite form (drain at the end of every behaviour). Bounded as C01.",
+    "note": "Concurrent-caller stage (MirrorConcMC.tla on world focus_conc): an add request that the kernel applies PARTLY (one target accepted, another conflicting) must still reach both consumers; the quiescence predicates are evaluated at the end of every interleaving. " +
+             "The other stages deliver one Handle* call at a time. Liveness is checked in its finite form (drain at the end of every behaviour). Bounded as C01.",
     "technique": "TLA+ spec (Mirror.tla view managers) + TLC bounded exploration of consumer interleavings + replay on the real Mirror with checks on the values actually received on StateMachineRoundViewOut / GossipStrategyOut",
 }
 
